@@ -19,8 +19,9 @@ VARIABLES l,      \* position of the next event
           cnt,    \* true event counts of the current measurement period (metrics log, C19)
           pcnt,   \* Prometheus label set (as text) -> true event count since the BrokerContext was created
           ips,    \* proxy type -> set of addresses seen in the current measurement period
+          jadds,  \* <<time, address>> of every registration of the current scenario (distinct-IP journal, C19)
           mok     \* the counts above are known (FALSE after an unexplained scenario, until the next new BrokerContext)
-tvars == <<vars, l, cnt, pcnt, ips, mok>>
+tvars == <<vars, l, cnt, pcnt, ips, jadds, mok>>
 
 Ev == TraceLog[l]
 Is(e) == l <= Len(TraceLog) /\ TraceLog[l].ev = e
@@ -28,7 +29,7 @@ Adv == l' = l + 1 /\ (IF TraceLog[l].ev = "reset" THEN TRUE ELSE UNCHANGED mok)
 LockOK == RequireLocked => Ev.locked = TRUE
 
 CntZero == [idle |-> 0, denied |-> 0, deniedR |-> 0, deniedU |-> 0, matched |-> 0, withRelay |-> 0, withoutRelay |-> 0]
-Keep == UNCHANGED <<cnt, pcnt, ips>>
+Keep == UNCHANGED <<cnt, pcnt, ips, jadds>>
 Empty == [x \in {} |-> 0]
 Bump(f, k) == IF k \in DOMAIN f THEN [f EXCEPT ![k] = @ + 1] ELSE f @@ (k :> 1)
 PutIn(f, k, x) == IF k \in DOMAIN f THEN [f EXCEPT ![k] = @ \cup {x}] ELSE f @@ (k :> {x})
@@ -37,7 +38,7 @@ ProxyPollKey(nat, status) == "prom:rounded_proxy_poll_total{nat=" \o nat \o ",st
 ClientPollKey(nat, status) == "prom:rounded_client_poll_total{nat=" \o nat \o ",status=" \o status \o "}"
 RelayKey(with, nat, type) == "prom:rounded_proxy_poll_" \o (IF with THEN "with" ELSE "without") \o "_relay_url_extension_total{nat=" \o nat \o ",type=" \o type \o "}"
 
-TInit == Init /\ l = 1 /\ cnt = CntZero /\ pcnt = Empty /\ ips = Empty /\ mok = TRUE /\ TLCSet(1, 1)
+TInit == Init /\ l = 1 /\ cnt = CntZero /\ pcnt = Empty /\ ips = Empty /\ jadds = {} /\ mok = TRUE /\ TLCSet(1, 1)
 
 TReset ==
   /\ Is("reset")
@@ -53,7 +54,8 @@ TReset ==
   /\ presp' = [p \in Proxies |-> None] /\ cresp' = [c \in Clients |-> None] /\ aresp' = [a \in Answers |-> None]
   /\ (IF Ev.fresh THEN cnt' = CntZero /\ pcnt' = Empty /\ ips' = Empty
       ELSE IF Ev.rollover THEN cnt' = CntZero /\ ips' = Empty /\ UNCHANGED pcnt
-      ELSE Keep)
+      ELSE UNCHANGED <<cnt, pcnt, ips>>)
+  /\ jadds' = {}
   /\ mok' = (IF Ev.fresh THEN TRUE ELSE IF Ev.resync THEN FALSE ELSE mok)
   /\ Adv
 
@@ -64,6 +66,7 @@ TAdd ==
   /\ cnt' = (IF Ev.relayext THEN [cnt EXCEPT !.withRelay = @ + 1] ELSE [cnt EXCEPT !.withoutRelay = @ + 1])
   /\ pcnt' = Bump(pcnt, RelayKey(Ev.relayext, Ev.nat, Ev.ptype))
   /\ ips' = PutIn(ips, Ev.ptype, Ev.addr)
+  /\ jadds' = jadds \cup {<<Ev.t, Ev.addr>>}
   /\ Adv
 
 (* the client's pop under the lock: the logged heap root is what it gets *)
@@ -78,7 +81,7 @@ TMatch ==
                                  !.deniedR = @ + (IF Ev.nat = "unrestricted" THEN 0 ELSE 1)]
            /\ pcnt' = Bump(pcnt, ClientPollKey(Ev.nat, "denied"))
       ELSE UNCHANGED <<cnt, pcnt>>)
-  /\ UNCHANGED ips /\ Adv
+  /\ UNCHANGED <<ips, jadds>> /\ Adv
 
 TOfferGate == Is("c.offer") /\ cpc[Ev.c] = "sendOffer" /\ claimed[Ev.c] = Ev.p /\ UNCHANGED vars /\ Keep /\ Adv
 
@@ -125,7 +128,7 @@ TPResp ==
                            /\ presp'[Ev.p].relay = Ev.relay)
   /\ cnt' = [cnt EXCEPT !.idle = @ + (IF Ev.kind = "nomatch" THEN 1 ELSE 0)]
   /\ pcnt' = Bump(pcnt, ProxyPollKey(pnat[Ev.p], IF Ev.kind = "nomatch" THEN "idle" ELSE "matched"))
-  /\ UNCHANGED ips
+  /\ UNCHANGED <<ips, jadds>>
   /\ Adv
 
 (* The hooks "a.sent" / "a.dropped" run after the non-blocking send, when its
@@ -146,7 +149,7 @@ TCAnswer ==
   /\ cresp'[Ev.c].kind = "answer" /\ cresp'[Ev.c].answer = Ev.a
   /\ cnt' = [cnt EXCEPT !.matched = @ + 1]
   /\ pcnt' = Bump(pcnt, ClientPollKey(EffNat(Ev.c), "matched"))
-  /\ UNCHANGED ips
+  /\ UNCHANGED <<ips, jadds>>
   /\ Adv
 TCTimeout == Is("c.timeout") /\ ClientTimerFire(Ev.c) /\ Keep /\ Adv
 TCPre == Is("c.precleanup") /\ cpc[Ev.c] = "cleanup" /\ claimed[Ev.c] = Ev.p /\ UNCHANGED vars /\ Keep /\ Adv
@@ -181,6 +184,19 @@ TAResp == Is("a.resp") /\ apc[Ev.a] = "done" /\ aresp[Ev.a].kind = Ev.kind /\ UN
 
 (* /debug served: it reports the number of registered snowflakes and changes nothing *)
 TDebug == Is("debug") /\ Ev.avail >= 0 /\ (Ev.exact => Ev.avail = Cardinality(idmap)) /\ DebugPoll /\ Keep /\ Adv
+
+(* The distinct-IP journal of the scenario (flushed at its end): every proxy poll's address is in the
+   chunk that was current when it polled - a rotation is triggered by the first poll after the
+   interval, closes the chunk at that instant, and that poll belongs to the next chunk - and the
+   reader's count for a window that is exactly one chunk is the number of distinct addresses in it.
+   The journal holds no address text. *)
+InChunk(t, k, chunks) == chunks[k].s <= t /\ (t < chunks[k].e \/ (k = Len(chunks) /\ t <= chunks[k].e))
+TJournal ==
+  /\ Is("journal")
+  /\ Ev.addrtext = FALSE
+  /\ \A k \in 1..Len(Ev.chunks) : Ev.chunks[k].n = Cardinality({x[2] : x \in {y \in jadds : InChunk(y[1], k, Ev.chunks)}})
+  /\ \A x \in jadds : \E k \in 1..Len(Ev.chunks) : InChunk(x[1], k, Ev.chunks)
+  /\ UNCHANGED vars /\ Keep /\ Adv
 
 (* a metrics critical section was entered (lock probe, C20) *)
 TMLocked == Is("m.locked") /\ LockOK /\ UNCHANGED vars /\ Keep /\ Adv
@@ -222,12 +238,12 @@ TMetrics ==
       THEN /\ cnt' = [cnt EXCEPT !.denied = @ + 2, !.deniedR = @ + 1, !.deniedU = @ + 1]
            /\ pcnt' = Bump(Bump(pcnt, ClientPollKey("unknown", "denied")), ClientPollKey("unrestricted", "denied"))
       ELSE UNCHANGED <<cnt, pcnt>>)
-  /\ UNCHANGED vars /\ UNCHANGED ips /\ Adv
+  /\ UNCHANGED vars /\ UNCHANGED <<ips, jadds>> /\ Adv
 
 TNext ==
   \/ TReset \/ TAdd \/ TMatch \/ TOfferGate \/ TSent \/ TWOffer \/ TForwarded \/ TGot
   \/ TWTimeout \/ TWLocked \/ TWClaimed \/ TPResp \/ TCAnswer \/ TCTimeout \/ TCPre \/ TCCleanup \/ TCResp
-  \/ TALookup \/ TASendGate \/ TSilentSend \/ TSilentGet \/ TASent \/ TADropped \/ TAResp \/ TTick \/ TEnd \/ TMetrics \/ TMLocked \/ TDebug
+  \/ TALookup \/ TASendGate \/ TSilentSend \/ TSilentGet \/ TASent \/ TADropped \/ TAResp \/ TTick \/ TEnd \/ TMetrics \/ TMLocked \/ TDebug \/ TJournal
 
 TSpec == TInit /\ [][TNext]_tvars
 
